@@ -7,6 +7,7 @@ mod eff;
 mod eng;
 mod pm;
 mod rm;
+mod rmm;
 mod stress;
 mod txt;
 
@@ -18,6 +19,7 @@ fn run_case(toks: &[&str]) -> String {
         Some("eff") => eff::run_eff(toks),
         Some("effnew") => eff::run_effnew(toks),
         Some("rm") => rm::run_rm(toks),
+        Some("rmm") => rmm::run_rmm(toks),
         Some("pm") => pm::run_pm(toks),
         Some("stress") => stress::run_stress(toks),
         Some("savecrash") => crash::run_savecrash(toks),
